@@ -17,7 +17,7 @@ from .common import set_interrupts, COMPONENTS_BASE, run_sim, new_sim, finish_ou
 
 PID = "C09"
 LEVEL = "exploration"
-BUDGET = {"quick": 60000, "thorough": 2000000}
+BUDGET = {"quick": 250000, "thorough": 5000000}
 RULE = (
     "each run draws: n=2..4 children with one consumer task each (take j items then exhaust / aclose / "
     "abandon, 0..2 pauses between items), a source of 0..6 fresh weak-referenceable items of a seeded flavour "
